@@ -1877,6 +1877,18 @@ def sym_hash(x: Any) -> int:
     return hash(x.__code__.co_code)
   if inspect.ismethod(x):
     return hash((sym_hash(x.__self__), x.__code__.co_code))  # pytype: disable=attribute-error
+  # NOTE: `pg.eq` compares the members of plain containers symbolically (and a
+  # plain list/dict equals a `pg.List`/`pg.Dict` of the same content), thus
+  # their hashes are computed from the symbolic hashes of the members.
+  if isinstance(x, tuple):
+    return hash(tuple([sym_hash(e) for e in x]))
+  if isinstance(x, list):
+    return sym_hash((list, tuple([sym_hash(e) for e in x])))
+  if isinstance(x, dict):
+    return sym_hash(
+        (dict,
+         frozenset([(k, sym_hash(v)) for k, v in x.items()
+                    if pg_typing.MISSING_VALUE != v])))
   return hash(x)
 
 
